@@ -301,7 +301,9 @@ def run(tier: str, budget: Budget, rnd, arg) -> StreamResult:
     first_seen = []      # (key, n, seed, values) of seed-respecting calls, re-requested at the end in another order
     stop = False
     for rnd_i in range(rounds):
-        for n in ns:
+        # the property quantifies over n = 3..8: the quick tier visits 8, 7, 6 once per key, FIRST (tables of 256 entries,
+        # uint8 arithmetic and the like break at exactly these sizes), then samples 3..5
+        for n in ((8, 7, 6) + tuple(ns) if tier == "quick" and rnd_i == 0 else ns):
             if n >= 7 and rnd_i >= 8:
                 continue
             for key in keys:
@@ -422,6 +424,38 @@ def run(tier: str, budget: Budget, rnd, arg) -> StreamResult:
                 if not (np.array_equal(draws[0][0], draws[1][0]) and np.array_equal(draws[0][1], draws[1][1])):
                     violate(key, n, seed, "not-deterministic-through-ModelInstance",
                             {"first": draws[0][0].tolist()[:8], "second": draws[1][0].tolist()[:8]})
+        # one ModelInstance re-configured in a sweep (a mutable dataclass: fields may be re-assigned between uses): every use
+        # must answer for the configuration it has NOW — requested player count, requested generator family
+        sweep_keys = [k for k in ("factory", "k_budget_generator", "xos", "graph_cycle", "xs") if k in keys]
+        inst = ModelInstance(number_of_players=4, game_generator=sweep_keys[0], seed=rnd.randrange(2 ** 31), run_steps_limit=1)
+        for step_ in range(6 if tier == "quick" else 30):
+            if step_:
+                if step_ % 2:
+                    inst.number_of_players = rnd.choice([n_ for n_ in (3, 4, 5, 6) if n_ != inst.number_of_players])
+                else:
+                    inst.game_generator = rnd.choice([k_ for k_ in sweep_keys if k_ != inst.game_generator])
+            key_, n_ = inst.game_generator, inst.number_of_players
+            try:
+                g1 = inst.game_generator_fn()
+                e1 = inst.get_env()
+                probs = []
+                for label, game_ in (("game_generator_fn()", g1), ("get_env().full_game", e1.full_game)):
+                    if game_.number_of_players != n_ or len(game_.get_values()) != 2 ** n_:
+                        probs.append(f"{label} has {game_.number_of_players} players")
+                    else:
+                        b_ = oracle_values(key_, fams[key_][0], n_, game_)
+                        if b_:
+                            probs.append(f"{label}: {b_[0][0]}")
+                if e1.incomplete_game.number_of_players != n_:
+                    probs.append(f"the environment's incomplete game has {e1.incomplete_game.number_of_players} players")
+            except Exception as e:      # noqa: BLE001
+                probs = [f"raised {type(e).__name__}: {str(e)[:120]}"]
+            res.evaluations += 1
+            res.count("model-instance-reconfigured")
+            if probs:
+                violate(key_, n_, inst.seed, "re-configured-ModelInstance",
+                        {"asked_for": [key_, n_], "problems": probs, "after_reassigning": "number_of_players / game_generator on one instance"})
+                break
     except ImportError as e:       # run.model needs torch / sb3; absent ⇒ reported, not silently skipped
         res.notes.append(f"ModelInstance path not exercised: {e}")
 
